@@ -13,6 +13,7 @@ from .. import driver
 from ..core import Ctx, coq_eval_shards, g_bool, g_list, g_nat, g_opt, g_pair, proof_step, tmap
 
 PLUG = "vfault"
+GARBAGE = ("garbage", "empty", "other")       # exit status 0, but the output is not the formatted code
 
 
 # ----------------------------------------------------------------------------- projects
@@ -63,8 +64,8 @@ def gen_project(rng, i):
             src = src.replace(" == snapshot", "   == snapshot", 1).replace("def test_a():", "def test_a( ):")
         files[f"test_f{k}.py"] = src
     setup = ["black", "black", "black", "fmtcmd"][i % 4]
-    fmt = ["ok", "ok", "ok", "ok", "fail", "garbage"][i % 6]
-    if fmt == "garbage":
+    fmt = ["ok", "ok", "ok", "fail", "garbage", "ok", "empty", "other"][i % 8]
+    if fmt in GARBAGE:
         # unparsable output with exit status 0 is what a misconfigured format-command produces (black in process never
         # does); with a format-command the generated fragments are not formatted one by one, only the whole file is
         setup = "fmtcmd"
@@ -86,12 +87,15 @@ def write_project(p, d: Path):
 
 
 def session(p, at=None, kind="crash"):
-    """one real pytest session with the tracing plugin; returns the observations"""
+    """one real pytest session with the tracing plugin; returns the observations.  kind garble-<how>: the formatter call at
+    this boundary prints something else than the formatted code"""
     d = driver.scratch_dir("c15-")
     try:
         write_project(p, d)
         trace = d / "trace.jsonl"
-        env = {"VFAULT_TRACE": str(trace), "VFAULT_PHASE": "write", "VFAULT_FMT": p["fmt"], "VFAULT_KIND": kind}
+        env = {"VFAULT_TRACE": str(trace), "VFAULT_PHASE": "write", "VFAULT_FMT": p["fmt"], "VFAULT_KIND": kind.split("-")[0]}
+        if kind.startswith("garble-"):
+            env["VFAULT_GARBLE"] = kind.split("-")[1]
         if at is not None:
             env["VFAULT_AT"] = str(at)
             if at % 2 == 1:
@@ -234,9 +238,10 @@ def g_step(s):
 
 
 def g_case(p, cfg, flt, obs, nnews, nolds):
-    fm = {"ok": "FOk", "fail": "FFails", "garbage": "FGarbage"}[p["fmt"]]
+    fm = {"ok": "FOk", "fail": "FFails", "garbage": "FGarbage", "empty": "FGarbage", "other": "FGarbage"}[p["fmt"]]
     files = g_list(cfg, lambda f: "{| f_id := %s; f_clean := %s; f_import := %s; f_exts := %s |}" % (g_nat(f[0]), g_bool(f[1]), g_bool(f[2]), g_list(f[3], g_nat)))
     c = "{| c_enforce := %s; c_fmt := %s; c_files := %s |}" % (g_bool(p["setup"] == "fmtcmd"), fm, files)
+    # a formatter call that prints something else than the formatted code is handled like a failing formatter call
     f = "None" if flt is None else f"(Some ({g_nat(flt[0])}, {'Crash' if flt[1] == 'crash' else 'Fail'}))"
     o = g_pair(g_list(obs["trace"], g_step), g_list(obs["disk"], lambda e: g_pair(g_nat(e[0]), g_nat(e[1]))),
                g_list(obs["store"], lambda e: g_pair(g_nat(e[0]), g_bool(e[1]))), g_nat(obs["halted"]), g_bool(obs["reported"]), g_list(obs["tmps"], g_nat))
@@ -269,19 +274,19 @@ def judge(p, r, ref, order, flt, tr_ref):
         if cl in (2, 3, 4):
             what = {2: "is empty (truncated)", 3: "is not valid Python", 4: "is neither its previous nor the complete new content"}[cl]
             tag = None
-            if cl == 3 and p["fmt"] == "garbage" and flt is not None and flt[1] == "fail":
-                continue          # double fault (formatter returns garbage AND fails transiently): outside the property
             return (f"after the fault {flt} at step {step_at} the test file {n} {what}", tag)
     if r.get("tmps") and r["halted"] != 1:
         return (f"after the fault {flt} at step {step_at} a temporary file was left behind next to {r['tmps']} although the process was not interrupted", None)
     bad = dangling(r["files"], r["store"])
     if bad:
         return (f"after the fault {flt} at step {step_at}: dangling external references {bad} (store: {r['store']})", None)
-    if flt is not None and flt[1] == "fail" and step_at is not None and step_at[0] == "format" and p["fmt"] != "garbage":
-        if r["halted"]:
-            return (f"a formatter failure at step {flt[0]} stopped the session: {r['out'][-400:]}", None)
-        if not any(e["step"] == "report" and e["what"] for e in r["events"]) and "Problems" not in r["out_all"]:
-            return (f"the formatter failed at write-phase step {flt[0]} but no problem was reported", None)
+    fmt_fault = flt is not None and flt[1] != "crash" and step_at is not None and step_at[0] == "format"
+    if fmt_fault or (p["fmt"] != "ok" and (flt is None or flt[1] != "crash") and any(s_[0] == "format" for s_ in tr_ref)):
+        # the formatter failed, or printed something that is not the formatted code: unformatted but correct code plus a reported problem
+        if r["halted"] and (flt is None or fmt_fault):
+            return (f"a formatter failure ({p['fmt']}, fault {flt}) stopped the session: {r['out'][-400:]}", None)
+        if not r["halted"] and not any(e["step"] == "report" and e["what"] for e in r["events"]) and "Problems" not in r["out_all"]:
+            return (f"the formatter failed ({p['fmt']}, fault {flt}) but no problem was reported", None)
     return None
 
 
@@ -307,9 +312,12 @@ def run_project(item):
         res["broken"] = "fault-free session ended with an internal error: " + good["out"][-600:]
         return res
     points = [(n, k) for n in range(len(tr_ref) + 1) for k in ("crash", "fail")]
+    if p["setup"] == "fmtcmd":
+        # a format-command that exits with status 0 but prints something else than the formatted code, at one call only
+        points += [(n, "garble-" + how) for n in range(len(tr_ref)) if tr_ref[n][0] == "format" for how in ("syntax", "empty", "other")]
     if budget < len(points):
         # always the boundaries around writes and persists, the rest sampled
-        key = [(n, k) for (n, k) in points if n < len(tr_ref) and (tr_ref[n][0] in ("write", "open_w", "mode", "replace", "persist") or (p["setup"] == "fmtcmd" and tr_ref[n][0] == "format" and k == "fail"))]
+        key = [(n, k) for (n, k) in points if n < len(tr_ref) and (tr_ref[n][0] in ("write", "open_w", "mode", "replace", "persist") or (p["setup"] == "fmtcmd" and tr_ref[n][0] == "format" and k != "crash"))]
         rest = [x for x in points if x not in key]
         rng.shuffle(key)
         rng.shuffle(rest)
@@ -363,8 +371,6 @@ def run(ctx: Ctx):
                 ctx.report("C15 oracle: " + why[0], {"kind": "project", "project": p, "fault": flt}, tag=why[1])
                 if ctx.classify(why[1]) is None:
                     continue
-            if p["fmt"] == "garbage" and flt is not None and flt[1] == "fail":
-                continue       # double fault (garbage formatter + transient failure): outside the property, see C15_garbage_double_fault_refuted
             obs = observe(p, r, good, order, ids)
             terms.append(g_case(p, cfg, flt, obs, len(p["news"]), len(p["olds"])))
             meta.append((p, flt, obs))
